@@ -269,6 +269,11 @@ BULLETY = [b"-", b"*", b"+", b"#", b"- x", b"* y", b"+ z", b"# h", b"a-b", b"a*b
 ODD = [b"a\\b", b"100%", b"cpu%d.txt", b"a%20b", b"%s", b"%!", b"sp ", b"tb\t", b"c:\\x"]
 UNICODE = ["日本語".encode(), "é".encode(), "é".encode(), "a b".encode(), "　x".encode(),
            "x　".encode(), "🌳".encode(), "ß".encode(), " ".encode() + b"z", "ｆ".encode()]
+# valid but unusual UTF-8 (combining marks, RTL / LTR marks, zero-width joiner and space, BOM inside a name,
+# variation selectors) and WTF-8 (an encoded surrogate: invalid UTF-8)
+UNICODE2 = ["e\u0301".encode(), "a\u0300\u0301\u0302".encode(), "\u200fabc".encode(), "abc\u200e".encode(), "a\u200db".encode(),
+            "a\u200bb".encode(), "x\ufeffy".encode(), "\u2764\ufe0f".encode(), "\U0001F468\u200d\U0001F469\u200d\U0001F467".encode(),
+            b"\xed\xa0\x80", b"a\xed\xb0\x80b", "\u0041\u030a".encode(), "\u00c5".encode(), "\u212b".encode()]
 BLANKY = [b" a", b"a ", b"  a  ", b"\ta", b"a\tb", b" ", b"  ", b"\t", b"a\rb"]
 HOSTILE_FMT = [b'"q"', b"a:b", b"a: b", b"#c", b"a #c", b"back\\slash", b"y", b"null", b"~", b"0x10", b"1e3",
                b"true", b"'s'", b"[x]", b"{y}", b"a,b", b"\xef\xbb\xbfbom", b"nul\x00x", b"esc\x1bx", b"cr\rx",
@@ -284,9 +289,9 @@ CASEY = [b"Makefile", b"makefile", b"MAKEFILE", b"README", b"Readme", b"readme",
 
 POOLS = {
     "ascii": ASCII_WORDS,
-    "mixed": ASCII_WORDS * 3 + BULLETY + UNICODE + BLANKY + CASEY + ODD,
+    "mixed": ASCII_WORDS * 3 + BULLETY + UNICODE + BLANKY + CASEY + ODD + UNICODE2,
     "casey": CASEY,
-    "hostile_fmt": ASCII_WORDS + HOSTILE_FMT * 2 + UNICODE + ODD,
+    "hostile_fmt": ASCII_WORDS + HOSTILE_FMT * 2 + UNICODE + ODD + UNICODE2,
     "fs": ASCII_WORDS * 4 + [b"f.go", b"g.go", b"Makefile", b"x.md", b"o", b"lib.o", b"a.tar.gz", b"b.tar.gz", b"GNUmakefile", b"profile"] + ODD,
     "fs_hostile": ASCII_WORDS * 3 + HOSTILE_FS,
     # sibling names that are prefixes of each other, continued by bytes sorting below and above '/'
